@@ -295,6 +295,92 @@ def run(ctx):
                           "outcome %r" % (out[0:2],))
     ctx.exhaustive[R] = True
 
+    # ------------------------------------------------------------------
+    R = "C15.distribution_covers"
+    ctx.rule(R, "_distribute_links: for every list of neighbour ends on the "
+             "distributed end (up to 5 links, parallel links to one "
+             "neighbour included) and every factor 2..4, each former "
+             "neighbour end keeps a link to the segment or to one of its "
+             "copies",
+             floor=200)
+    f_dl = ctx.anchor("Multiplication._distribute_links",
+                      gfacls.find_method("_distribute_links"))
+    SE = repo.cls("SegmentEnd")
+    Lk = repo.cls("line.edge.Link")
+
+    class DH(LineHooks):
+        def __init__(self, repo, sigs):
+            super().__init__(repo)
+            self.sigs = sigs
+            self.removed = []
+            self.segs = {}
+
+        def before_inline(self, ev, func, args, kwargs):
+            if func.name == "_select_distribute_end":
+                return "R"
+            return NotImplemented
+
+        def method(self, ev, base, name, args, kwargs, node):
+            if isinstance(base, Abs) and base.label == "gfa" and \
+                    name == "segment":
+                sn = args[0]
+                if sn not in self.segs:
+                    self.segs[sn] = Abs(None, label="seg:" + sn, links=[
+                        Abs(Lk, label="%s#%d" % (sn, j), sig=sig, owner=sn,
+                            idx=j) for j, sig in enumerate(self.sigs)])
+                return self.segs[sn]
+            if isinstance(base, Abs) and name == "dovetails_of_end":
+                return base.attrs["links"]
+            if isinstance(base, Abs) and name == "other_end":
+                return Abs(SE, label=base.attrs["sig"], sig=base.attrs["sig"])
+            if isinstance(base, Abs) and name == "disconnect":
+                self.removed.append((base.attrs["owner"], base.attrs["idx"]))
+                return None
+            return super().method(ev, base, name, args, kwargs, node)
+
+        def construct(self, ev, cls, args, kwargs):
+            if cls is SE:
+                return Abs(SE, label="end")
+            return super().construct(ev, cls, args, kwargs)
+
+        def to_str(self, ev, v):
+            if isinstance(v, Abs) and "sig" in v.attrs:
+                return v.attrs["sig"]
+            return super().to_str(ev, v)
+    for n in range(1, 6):
+        # neighbour lists up to renaming: first occurrence order a, b, c...
+        lists = set()
+        for combo in itertools.product("abcde"[:n], repeat=n):
+            ren, out_l = {}, []
+            for c in combo:
+                ren.setdefault(c, "abcde"[len(ren)])
+                out_l.append(ren[c])
+            lists.add(tuple(out_l))
+        for sigs in sorted(lists):
+            for factor in (2, 3, 4):
+                ctx.instance(R)
+                names = ["s"] + ["s*%d" % i for i in range(2, factor + 1)]
+                dh = DH(repo, list(sigs))
+                g = Abs(gfacls, label="gfa")
+                out = eval_function(repo, f_dl, [g, "R", "s", names[1:],
+                                                 factor], hooks=dh)
+                kept = {sn: [sigs[j] for j in range(len(sigs))
+                             if (sn, j) not in dh.removed] for sn in names}
+                covered = set()
+                for sn in names:
+                    covered |= set(kept[sn])
+                lost = sorted(set(sigs) - covered)
+                ok = out[0] == "return" and not lost
+                ctx.oblige(ok)
+                if not ok:
+                    ctx.violation(
+                        R, f_dl.short, "neighbours=%s,factor=%d" % (
+                            "".join(sigs), factor),
+                        "outcome %s; neighbour end(s) %s keep no link to the "
+                        "segment or any copy (kept per copy: %r)" % (
+                            out[0], lost, kept))
+    ctx.exhaustive[R] = True
+
 
 class HashHooks(SeqHooks):
     """abstract lines can be members of sets (identity hash)"""
